@@ -109,6 +109,8 @@ func classifyAPIDiff(d diff, g *Graph) string {
 		return "shared-header-component/name-leaks"
 	case (strings.Contains(n, "Operations.*.Path") || strings.HasSuffix(n, "Operations.*.Parameters") || strings.Contains(n, "Operations.*.Parameters.")) && hasKind("pathItem") && pathItemShared(g):
 		return "shared-pathitem/path-leaks"
+	case (strings.HasSuffix(n, ".Examples") || strings.HasSuffix(n, ".Examples.*")) && !strings.HasSuffix(n, "Content.*.Examples") && !strings.HasSuffix(n, "Content.*.Examples.*"):
+		return "media-examples-accumulate-on-shared-schema"
 	case strings.HasSuffix(n, "Properties.*.Description"):
 		return "schema-property-description-dropped-behind-ref"
 	case strings.HasSuffix(n, "Security.XOgenCustomSecurity"):
@@ -180,6 +182,34 @@ func (m *mon) decide(id string, g *Graph, sel []int, base, other *Outcome, inl F
 			return st
 		}
 	}
+	// direct observations: what the document itself determines
+	poisoned := false
+	for _, oc := range []struct {
+		n string
+		o *Outcome
+	}{{"document with references", base}, {"partly inlined document", other}} {
+		d := oc.o.Direct
+		if d == nil {
+			continue
+		}
+		if len(d.HeaderLeaks) > 0 {
+			poisoned = true
+			violate("shared-header-component/name-leaks", fmt.Sprintf("in the API of the %s: %s", oc.n, strings.Join(d.HeaderLeaks, "; ")), d)
+		}
+		if len(d.OpsMissing) > 0 || len(d.OpsExtra) > 0 {
+			poisoned = true
+			sig := "operations-differ-from-document"
+			if pathItemShared(g) {
+				sig = "shared-pathitem/path-leaks"
+			}
+			violate(sig, fmt.Sprintf("in the API of the %s: operations declared but absent %v, present but not declared (or repeated) %v", oc.n, d.OpsMissing, d.OpsExtra), d)
+		}
+	}
+	if poisoned {
+		// the API of one side is already known to be wrong in a way that spreads (names, routes): no differential verdicts on top
+		r.Count("cases_not_compared_after_direct_finding", 1)
+		return st
+	}
 	// (1) parse level
 	switch {
 	case base.Parsed() && !other.Parsed():
@@ -187,7 +217,8 @@ func (m *mon) decide(id string, g *Graph, sel []int, base, other *Outcome, inl F
 		return st
 	case !base.Parsed() && other.Parsed():
 		sig := "ref-fails-to-parse/" + kinds + ":" + errClass(base.ParseText())
-		if strings.Contains(base.ParseText(), "invalid URL escape") {
+		if strings.Contains(base.ParseText(), "invalid URL escape") || strings.Contains(base.ParseText(), "can't find value") {
+			// a pointer that spells a literal '%' as %25 and is not found / not decodable: decoded once too often
 			for _, i := range sel {
 				if strings.Contains(g.Holders[i].Ref, "%25") {
 					sig = "fragment-percent-decoded-twice"
@@ -221,7 +252,11 @@ func (m *mon) decide(id string, g *Graph, sel []int, base, other *Outcome, inl F
 			return st
 		}
 		if base.GenOK() {
-			violate("inlined-fails-to-generate/"+kinds+":"+errClass(other.GenText()), "document generates, its inlined form does not: "+other.GenText(), other.GenText())
+			sig := "inlined-fails-to-generate/" + kinds + ":" + errClass(other.GenText())
+			if strings.Contains(other.GenText(), "name conflict") {
+				sig = "inlined-fails-to-generate/type-name-conflict"
+			}
+			violate(sig, "document generates, its inlined form does not: "+other.GenText(), other.GenText())
 		} else {
 			violate("ref-fails-to-generate/"+kinds+":"+errClass(base.GenText()), "inlined form generates, the document with the reference does not: "+base.GenText(), base.GenText())
 		}
@@ -263,7 +298,14 @@ func (m *mon) decide(id string, g *Graph, sel []int, base, other *Outcome, inl F
 		}
 		return st
 	}
-	if base.Files != nil && other.Files != nil && sameStrings(base.Types, other.Types) {
+	schemaInlined := false
+	for _, i := range sel {
+		if g.Holders[i].Kind == "schema" {
+			schemaInlined = true
+		}
+	}
+	// a referenced primitive/array schema is a named Go type, its copy is not: bytes may differ although the declared names coincide
+	if base.Files != nil && other.Files != nil && sameStrings(base.Types, other.Types) && !schemaInlined {
 		st.byteCompared = true
 		if len(apiDiffs) > 0 {
 			return st
@@ -332,7 +374,7 @@ func subsets(n int, rng *ev.Rand) [][]int {
 	}
 	out = append(out, full)
 	seen := map[string]bool{fmt.Sprint(full): true}
-	for len(out) < 12 {
+	for tries := 0; len(out) < 12 && tries < 200; tries++ {
 		s := []int{rng.Intn(n)}
 		if !seen[fmt.Sprint(s)] {
 			seen[fmt.Sprint(s)] = true
@@ -364,6 +406,9 @@ func (m *mon) transparency(id string, fs FileSet, rng *ev.Rand, o RunOpts, only 
 		r.Count("graphs_not_loadable_by_harness", 1)
 		return
 	}
+	// both sides go through the harness's emitter (spelling invariance is another property's business)
+	fs = emitSet(fs.Root, g.Trees)
+	g.FS = fs
 	inl := g.Inlinable()
 	for _, h := range g.Holders {
 		switch {
@@ -382,6 +427,10 @@ func (m *mon) transparency(id string, fs FileSet, rng *ev.Rand, o RunOpts, only 
 	bo := o
 	bo.Write = o.Gen && o.Write
 	base := Run(fs, bo)
+	expOps, opsKnown := g.ExpectedOps()
+	if base.Parsed() {
+		base.Direct = CheckDirect(base.API, expOps, opsKnown)
+	}
 	if base.Parsed() {
 		r.Count("graphs_base_parses", 1)
 	} else {
@@ -404,6 +453,8 @@ func (m *mon) transparency(id string, fs FileSet, rng *ev.Rand, o RunOpts, only 
 			subs = append(subs, sel)
 		}
 	}
+	written := 0
+	maxWritten := m.r.N(8, 5)
 	for si, sel := range subs {
 		ifs, err := g.Inline(sel)
 		if err != nil {
@@ -414,9 +465,17 @@ func (m *mon) transparency(id string, fs FileSet, rng *ev.Rand, o RunOpts, only 
 		so.Write = false
 		if o.Gen && o.Write {
 			// write when the byte comparison applies, and always for the first subset (outcome of WriteSource)
-			so.WriteIf = func(types []string) bool { return si == 0 || sameStrings(types, base.Types) }
+			so.WriteIf = func(types []string) bool {
+				return si == 0 || (written < maxWritten && base.GenStage == "ok" && sameStrings(types, base.Types))
+			}
 		}
 		other := Run(ifs, so)
+		if other.Parsed() {
+			other.Direct = CheckDirect(other.API, expOps, opsKnown)
+		}
+		if other.Files != nil {
+			written++
+		}
 		key := id + "|" + strings.Join(keysOf(g, sel), ",")
 		r.Case(key)
 		if verbose {
@@ -445,7 +504,7 @@ func (m *mon) transparency(id string, fs FileSet, rng *ev.Rand, o RunOpts, only 
 		}
 	}
 	// (4) the expanded spec
-	if base.Parsed() && only == nil {
+	if base.Parsed() && only == nil && !base.Direct.Poisoned() {
 		m.expand(id, fs, base, o, verbose)
 	}
 }
@@ -480,8 +539,45 @@ func Main(args []string) int {
 		return r.Finish("replay of one stored witness", 0, false)
 	}
 
+	if len(args) >= 1 && args[0] == "--sizes" {
+		hist := map[int]int{}
+		for i := 0; i < 300; i++ {
+			rng := ev.NewRand(r.Seed, "C07", "graph", fmt.Sprint(i))
+			fs, _ := GenGraph(rng)
+			g, err := LoadGraph(fs)
+			if err != nil {
+				fmt.Println("load error", i, err)
+				continue
+			}
+			hist[len(g.Inlinable())]++
+		}
+		fmt.Println(hist)
+		return 0
+	}
+	if len(args) >= 2 && args[0] == "--show" {
+		// print graph number N of this seed with the references the harness sees
+		var n int
+		fmt.Sscan(args[1], &n)
+		rng := ev.NewRand(r.Seed, "C07", "graph", fmt.Sprint(n))
+		fs, featured := GenGraph(rng)
+		fmt.Println("featured:", featured)
+		for _, f := range fileNames(fs) {
+			fmt.Printf("---- %s\n%s", f, fs.Files[f])
+		}
+		if g, err := LoadGraph(fs); err == nil {
+			for _, h := range g.Holders {
+				fmt.Printf("ref %-60s -> %s  [%s resolved=%v recursive=%v]\n", h.Key(), h.Ref, h.Class(), h.Resolved, h.Recursive)
+			}
+		}
+		m.transparency(fmt.Sprintf("graph-%d", n), fs, rng.Fork("subsets"), RunOpts{Gen: true, Write: true}, nil, true)
+		return 0
+	}
+
 	// ---- random reference DAGs
 	ngraphs := r.N(300, 5000)
+	if v := os.Getenv("C07_GRAPHS"); v != "" {
+		fmt.Sscan(v, &ngraphs)
+	}
 	ev.Parallel(ngraphs, runtime.NumCPU(), func(i int) {
 		rng := ev.NewRand(r.Seed, "C07", "graph", fmt.Sprint(i))
 		fs, featured := GenGraph(rng)
